@@ -397,3 +397,11 @@ package base
 
 //@ func ti/base.valueTFrameKey
 //@   safe
+
+//@ # ---- C02 layer 4: lookups recurse along the inheritance map; nothing bounds the recursion ----
+//@ # No variant can be given: the map may be cyclic (class A < B; class B < A).  The failing
+//@ # obligation is recorded as a known finding (see /verif/known_findings.txt).
+//@ func ti/base.getParentMethodT
+//@   terminates
+//@   inline 2 1
+//@   witness dec:rec#0 "class A < B\nend\nclass B < A\nend\nA.new.foo\n"
